@@ -159,13 +159,40 @@ def fidelity_rewrites(dst, log):
         log.append({"file": "crypto/math/pstm.h", "rewrite": "pstm_word mode(TI) -> unsigned __int128", "count": n})
 
 
-def derive(repo, dst, renames, log, asm=True):
-    """renames: {relative path: [function names]}"""
+def guard_shared(path, guards, log):
+    """C20 lock-discipline instrumentation: every textual use of a shared
+    object `obj` (outside its own declaration) becomes VF_GUARD(obj, lock),
+    a macro the harness defines as (*(vf_touch(&(lock)), &(obj)))"""
+    with open(path, encoding="utf-8", errors="surrogateescape") as f:
+        text = f.read()
+    stripped = _strip_map(text)
+    edits = []
+    for obj, lock in guards.items():
+        for m in re.finditer(r'\b' + re.escape(obj) + r'\b', stripped):
+            ls = stripped.rfind('\n', 0, m.start()) + 1
+            line = stripped[ls:stripped.find('\n', m.start())]
+            if re.match(r'\s*(static|extern)\b', line):
+                continue  # the declaration itself
+            if line.lstrip().startswith('#'):
+                continue
+            edits.append((m.start(), obj, lock))
+        log.append({"file": os.path.basename(path), "guarded": obj, "lock": lock,
+                    "uses": sum(1 for e in edits if e[1] == obj)})
+    for o, obj, lock in sorted(edits, reverse=True):
+        text = text[:o] + "VF_GUARD(%s, %s)" % (obj, lock) + text[o + len(obj):]
+    with open(path, "w", encoding="utf-8", errors="surrogateescape") as f:
+        f.write(text)
+
+
+def derive(repo, dst, renames, log, asm=True, guards=None):
+    """renames: {relative path: [function names]}; guards: {path: {obj: lock}}"""
     n = copy_tree(repo, dst)
     log.append({"copied_files": n})
     fidelity_rewrites(dst, log)
     for rel, names in (renames or {}).items():
         rename_definitions(os.path.join(dst, rel), names, log)
+    for rel, g in (guards or {}).items():
+        guard_shared(os.path.join(dst, rel), g, log)
     if asm:
         from . import asm2c
         asm2c.translate_tree(dst, log)
